@@ -22,8 +22,9 @@
         (external mutation of Node.failed, Node.rtt) / closest_nodes
         * python mutates bucket objects in place; the model writes the changed bucket back at the key it was found at;
         * add's split-and-retry recursion is fuel-indexed (fuel = width + 1, `add_never_out_of_fuel` in Props);
-        * closest_nodes accumulates a *set* while walking from the longest matching prefix towards the root and
-          stops as soon as it holds more than `k` nodes; then sorts by XOR distance and cuts to `k`.
+        * closest_nodes accumulates candidates keyed by node id (after the repair; before, a set keyed by public key)
+          while walking from the longest matching prefix towards the root and stops as soon as it holds more than `k`
+          nodes; then sorts by XOR distance and cuts to `k`.
   Node status: only BAD vs not-BAD is observable in this code (`status` is also the secondary sort key in
   closest_nodes, which never decides anything because distances of distinct ids are distinct).
 -/
@@ -283,7 +284,7 @@ def bucketsUnder (t : Trie Bucket) (q : Bits) : List Bucket :=
 def level (t : Trie Bucket) (excl : Option Bits) (q : Bits) : List Node :=
   (bucketsUnder t q).flatMap (fun b => b.nodes.filter (live excl))
 
-/-- `nodes |= {...}` on duplicate-free lists -/
+/-- `nodes.update({node.id: node ...})` on lists without repeated ids (stored ids are distinct: `WF.nodup_ids`) -/
 def union (acc new : List Node) : List Node := acc ++ new.filter (fun x => !acc.contains x)
 
 /-- the break test `len(nodes) > max_nodes` (`strict`; the translator also accepts `>=`) -/
